@@ -4,6 +4,14 @@ import json, os, sys
 HERE = os.path.dirname(os.path.dirname(os.path.abspath(__file__)))
 
 CHECKS = {
+ "C11": dict(level="other", design="4.9",
+   technique="sibling-storage pairing rule over every member/constructor pattern of both container families, ==/!= shape, paired-iterator lockstep (symbolic positions), default-initialisation witnesses",
+   text="Decides the lockstep structure: in each of the ~45 members/constructors of xoptional_sequence/vector/array and xcomplex_sequence/vector/array "
+        "every use of the first storage must be mirrored in order by the same operation on the second with the same size/index argument and the "
+        "prescribed fill (none->false, plain->true, v.value()->v.has_value(), .real()->.imag()), results are built (first, second); operator== compares "
+        "both storages; the paired iterators move/compare both sub-iterators alike; the array variants size both storages in their default constructor "
+        "and are not trivially default constructible.",
+   note="Assumes make_sequence and the std containers behave as specified; at()/resize of the flag bitset itself belong to C03."),
  "C12": dict(level="other", design="4.10",
    technique="symbolic-position (polynomial) evaluation of every derived operator and every iterator primitive over the template patterns; ordering truth tables; primitive exhaustiveness",
    text="Decides mutual consistency of the operators: the derived !=,<=,>=,> of both bases are evaluated under the three orderings with == and < as atoms; "
